@@ -21,6 +21,9 @@ func (k Keeper) handleBridgeHook(ctx sdk.Context, data []byte, hookMaxGas uint64
 		gasForHook = hookMaxGas
 	}
 
+	// use new gas meter with the hook max gas limit
+	hookGasMeter := storetypes.NewGasMeter(gasForHook)
+
 	defer func() {
 		if r := recover(); r != nil {
 			reason = fmt.Sprintf("panic: %v", r)
@@ -31,11 +34,11 @@ func (k Keeper) handleBridgeHook(ctx sdk.Context, data []byte, hookMaxGas uint64
 			reason = reason[:maxReasonLength] + "..."
 		}
 
-		originGasMeter.ConsumeGas(ctx.GasMeter().GasConsumedToLimit(), "bridge hook")
+		// do not read the meter from ctx; a failed decorator can return an empty context
+		originGasMeter.ConsumeGas(hookGasMeter.GasConsumedToLimit(), "bridge hook")
 	}()
 
-	// use new gas meter with the hook max gas limit
-	ctx = ctx.WithGasMeter(storetypes.NewGasMeter(gasForHook))
+	ctx = ctx.WithGasMeter(hookGasMeter)
 
 	tx, err := k.txDecoder(data)
 	if err != nil {
